@@ -4,7 +4,7 @@
 From Coq Require Import List Arith NArith ZArith Bool Lia.
 From Coq.Strings Require Import Byte.
 From RimeV Require Import Base.Bytes Base.ListX Eng.Keys Eng.Cand Eng.Menu Eng.Segm Eng.Ctx Eng.Engine Eng.Procs
-     Eng.Api Eng.Oracle Eng.Spec.
+     Eng.Api Eng.Oracle Eng.Spec Eng.WfView Eng.Utf8Proofs.
 Import ListNotations.
 
 (** With the unchecked DeleteCandidate (the code before the repair) the
@@ -53,4 +53,64 @@ Proof.
     destruct (Byte.eqb c0 x75); [cbn; lia|]. destruct (Byte.eqb c0 x76); [cbn; lia|].
     destruct (Nat.eqb L (length (c0 :: r)));
       match goal with |- N.to_nat (_ + ?x mod ?k) <= _ => pose proof (N.mod_upper_bound x k ltac:(discriminate)) end; lia.
+Qed.
+
+(** The synthetic schemas also meet the hypothesis of the UTF-8 clause: for an
+    ASCII input string every oracle candidate has a text that starts with a
+    lead byte and an ASCII preedit. *)
+Lemma N_of_byte_of_N n : (n < 256)%N -> N_of_byte (byte_of_N n) = n.
+Proof.
+  intros H. unfold N_of_byte, byte_of_N. destruct (Byte.of_N n) as [b|] eqn:E.
+  - apply Byte.to_of_N in E. exact E.
+  - apply Byte.of_N_None_iff in E. lia.
+Qed.
+
+Lemma oracle_ch_head b j r : starts_clean (oracle_ch b j ++ r) = true.
+Proof.
+  unfold oracle_ch. set (n := N_of_byte b).
+  destruct ((n + j) mod 4)%N as [|[[p|p|]|[p|p|]|]]; cbn [app starts_clean]; try reflexivity.
+  unfold is_cont_byte. pose proof (N.mod_upper_bound n 26 ltac:(discriminate)).
+  rewrite N_of_byte_of_N by lia.
+  replace (128 <=? 65 + n mod 26)%N with false by (symmetry; apply N.leb_gt; lia). reflexivity.
+Qed.
+
+Lemma ascii_preedit_clean pre :
+  all_ascii pre ->
+  starts_clean pre && match find_byte byte_tab pre with
+                      | Some p => starts_clean (skipn (S p) pre)
+                      | None => true
+                      end = true.
+Proof.
+  intros H. rewrite (ascii_clean _ H). cbn [andb].
+  destruct (find_byte byte_tab pre); [apply ascii_clean, all_ascii_skipn, H | reflexivity].
+Qed.
+
+Lemma join_spaces_ascii l : all_ascii l -> all_ascii (join_spaces l).
+Proof.
+  intros H. induction H as [|b r Hb Hr IH]; [constructor|]. cbn [join_spaces].
+  destruct r as [|b' r']; [constructor; [exact Hb | constructor]|].
+  constructor; [exact Hb|]. constructor; [reflexivity | exact IH].
+Qed.
+
+Lemma oracle_cand_clean input start L j : all_ascii input -> cand_clean (oracle_cand input start L j) = true.
+Proof.
+  intros H. unfold cand_clean, oracle_cand. cbn [c_text c_preedit].
+  pose proof (all_ascii_firstn L _ H) as Hpre. set (pre := firstn L input) in *.
+  assert (Ht : starts_clean (flat_map (fun b => oracle_ch b j) pre) = true).
+  { destruct pre as [|b r]; [reflexivity|]. cbn [flat_map]. apply oracle_ch_head. }
+  rewrite Ht. cbn [andb]. apply ascii_preedit_clean.
+  destruct (j =? 0)%N; [apply join_spaces_ascii, Hpre|].
+  destruct (j =? 1)%N; [|constructor].
+  apply Forall_app; split; [apply all_ascii_firstn, Hpre|].
+  apply Forall_app; split; [constructor; [reflexivity | constructor]|].
+  apply Forall_app; split; [apply all_ascii_skipn, Hpre | constructor; [reflexivity | constructor]].
+Qed.
+
+Lemma oracle_translate_clean input seg :
+  all_ascii input -> Forall (fun c => cand_clean c = true) (oracle_translate input seg).
+Proof.
+  intros H. unfold oracle_translate. destruct input as [|c0 r] eqn:Ei; [constructor|]. rewrite <- Ei in *.
+  destruct (Byte.eqb c0 x78); [constructor|].
+  apply Forall_forall. intros c Hc. apply in_flat_map in Hc as (L & _ & Hc).
+  apply in_map_iff in Hc as (j & <- & _). apply oracle_cand_clean, H.
 Qed.
